@@ -259,6 +259,11 @@ func checkC07(c *Check) {
 	c07R3(c, sr)
 	c07R4(c, sr)
 	requestIsReadOnly(c, "C07.R1")
+	// the rules that are evaluated are the configured ones: nothing rewrites them after loading
+	configFieldsNotWritten(c, "C07.R3", "rules-as-configured", map[string]bool{
+		pkgCfgV1 + ".Config.TriggerRules": true, pkgCfgV1 + ".TriggerRule.ExcludedPaths": true, pkgCfgV1 + ".TriggerRule.IncludedPaths": true,
+		pkgCfgV1 + ".StringMatch.MatchType": true,
+	}, "the trigger rules that decide are no longer the configured ones (rules are OR-ed: dropping an empty rule, which triggers for every path, opens every excluded path)")
 }
 
 func pathParamOf(fn *ssa.Function) *ssa.Parameter {
